@@ -228,7 +228,7 @@ class MatrixDFTExecutor:
 
     def _key(self, samples_in, Q, samples_out, shift, fwd):
         """Key to X, Y, U, V dicts."""
-        if isinstance(Q, (float, int)):
+        if not isinstance(Q, Iterable):
             Q = (Q, Q)
         elif not isinstance(Q, tuple):
             Q = tuple(float(q) for q in Q)  # float for dtype stabilization: cupy
@@ -241,6 +241,11 @@ class MatrixDFTExecutor:
 
         if not isinstance(shift, Iterable):
             shift = (shift, shift)
+
+        # the key indexes a dict: lists and arrays (any Iterable is accepted) are not hashable
+        samples_in = tuple(samples_in)
+        samples_out = tuple(samples_out)
+        shift = tuple(shift)
 
         return (Q, samples_in, samples_out, shift, fwd, config.precision)
 
